@@ -685,13 +685,39 @@ def shrink(case):
     """candidates: the script with one op removed (a script that no longer parses is simply not a failing one)"""
     ops = [o.strip() for o in case.split(";")]
     out = []
+    # everything after the last dump is irrelevant
+    for i in range(len(ops) - 1, -1, -1):
+        if ops[i] in ("dump", "dumpdb") and i + 1 < len(ops):
+            out.append(" ; ".join(ops[:i + 1]))
+            break
     for i in range(len(ops) - 1, -1, -1):
         if ops[i] == "nobip34":
             continue
         cand = ops[:i] + ops[i + 1:]
         if cand:
             out.append(" ; ".join(cand))
-    return out
+        w = ops[i].split()
+        if w and w[0] == "tx":
+            # the transaction and every mention of it in a block
+            cand = []
+            for j, o in enumerate(ops):
+                if j == i:
+                    continue
+                ww = o.split()
+                if ww and ww[0] == "mine":
+                    ww = ww[:4] + [t for t in ww[4:] if t != w[1]]
+                    cand.append(" ".join(ww))
+                else:
+                    cand.append(o)
+            out.append(" ; ".join(cand))
+        if w and w[0] == "mine" and len(w) > 4:
+            for k in range(4, len(w)):
+                out.append(" ; ".join(ops[:i] + [" ".join(w[:k] + w[k + 1:])] + ops[i + 1:]))
+        if w and w[0] == "dumpdb":
+            out.append(" ; ".join(ops[:i] + ["dump"] + ops[i + 1:]))
+    # every candidate costs a fresh node: keep the search short
+    out = list(dict.fromkeys(out))
+    return out[:30]
 
 
 def classify(case):
